@@ -452,3 +452,29 @@ def min_len(node: Node) -> int:
     else:
         base = 1
     return base * max(node.lo, 0)
+
+
+def defs_on_spine(root: Node) -> bool:
+    """True when every capture definition (first occurrence in document order) lies on the
+    executed-exactly-once spine: a direct child of the top-level list (or a direct operand of
+    such an item) with times (1,1), not inside $or/$not/$and_any_order/any repeated element."""
+    def walk(node, on_spine):
+        here = on_spine and node.lo == 1 and node.hi == 1
+        if node.is_def and not here:
+            return False
+        if node.kind == "igroup":
+            inner = here and node.name == "and"
+            return all(walk(c, inner) for c in node.children)
+        if node.kind == "item":
+            return all(walk(c, here) for c in (node.children or []))
+        if node.kind == "ogroup":
+            inner = here and node.name == "and"
+            return all(walk(c, inner) for c in node.children)
+        return True
+    return walk(root, True)
+
+
+def has_kind(root: Node, kinds) -> bool:
+    if root.kind in kinds:
+        return True
+    return any(has_kind(c, kinds) for c in (root.children or []))
